@@ -13,7 +13,7 @@ RULE = ("(a) version.h in process: all (want, have) over {0,1,2,10}^3 x {0,1,2,1
         "malformed ones (missing component, non-numeric, negative, empty, >= 64 chars) are refused.  (b) runtime: "
         "ovni_version_check_str and ovni_thread_require over versions around the library's own and malformed strings: "
         "returns iff compatible / well-formed, otherwise aborts with a diagnostic.  (c) emulator: for each of the 8 "
-        "models traces requiring versions around the advertised one are accepted iff compatible; for all 128 subsets "
+        "models traces requiring versions around the advertised one are accepted iff compatible, also when several streams require different versions of one model (every stream counts); for all 128 subsets "
         "of required non-ovni models one probe event per model is accepted iff its model is in the subset; with -a "
         "every probe is accepted.  Exhaustive over the stated domains; non-trivial = want != have.")
 ASSUMPTIONS = ["ambiguous spellings (leading blanks, '+1', extra dotted components) are generated only in the random part and not asserted",
@@ -161,6 +161,14 @@ def enum_emu(ctx):
                     yield {"mode": "version", "model": name, "want": [mj, mn, pt]}
         for s in ["", "1", "1.2", "a.b.c", "-1.0.0"]:
             yield {"mode": "version", "model": name, "want": s}
+    # several streams requiring the same model with different versions: every stream counts
+    for name, (ch, have) in sorted(adv.items()):
+        good = "%d.%d.%d" % have
+        older = "%d.%d.%d" % (have[0], max(0, have[1] - 1), 7)
+        bads = ["%d.%d.0" % (have[0] + 1, have[1]), "%d.%d.0" % (have[0], have[1] + 1), "banana", "1.2"]
+        for bad in bads:
+            for vers in ([good, bad], [bad, good], [good, older, bad], [older, bad, good], [good, good, good], [older, good]):
+                yield {"mode": "multi", "model": name, "versions": vers}
     others = sorted(PROBE)
     for mask in range(1 << len(others)):
         sub = [m for i, m in enumerate(others) if mask >> i & 1]
@@ -198,6 +206,32 @@ def run_emu(case, ctx):
         if ok != r.ok:
             raise Violation("trace requiring %s %s (emulator has %s): %s" % (name, ws, have, "accepted" if r.ok else "rejected: " + r.brief()))
         return {"nt": wv != have, "cls": ["emu:version"]}
+    if case["mode"] == "multi":
+        name = case["model"]
+        ch, have = adv[name]
+        streams = []
+        allok = True
+        for i, ws in enumerate(case["versions"]):
+            req = {"ovni": "%d.%d.%d" % adv["ovni"][1]}
+            req[name] = ws
+            wv = R.parse_version(ws)
+            allok = allok and wv is not None and compat(wv, have)
+            evs = [T.OHx(100 + i, -1), T.plain("OHe", 200 + i)]
+            s = {"loom": "n.0", "pid": 1, "tid": 1 + i, "app": 1, "require": req, "events": evs}
+            if i == 0:
+                s["cpus"] = [[0, 0]]
+            streams.append(s)
+        d = ctx.newdir()
+        try:
+            T.write_trace({"streams": streams}, d)
+            r = tools.emu(b, d, ("-l",))
+        finally:
+            ctx.rmdir(d)
+        if r.kind not in ("ok", "rejected"):
+            raise Violation("emulator crashed on versions %s of %s: %s" % (case["versions"], name, r.brief()))
+        if r.ok != allok:
+            raise Violation("streams requiring %s versions %s (emulator has %s): trace %s" % (name, case["versions"], have, "accepted" if r.ok else "rejected"))
+        return {"nt": True, "cls": ["emu:multi-stream"]}
     sub = case["models"]
     req = {"ovni": "%d.%d.%d" % adv["ovni"][1]}
     for m in sub:
